@@ -22,14 +22,6 @@ Proof. destruct a, b; cbn; split; intro H; try reflexivity; try discriminate. Qe
 Definition shape_eqb (a b : shape) : bool :=
   match a, b with Scalar, Scalar | Tuple, Tuple | ListOf, ListOf => true | _, _ => false end.
 
-Definition src_eqb (a b : src) : bool :=
-  match a, b with
-  | SSlot f i m, SSlot g j n => String.eqb f g && (i =? j) && (m =? n)
-  | SConst x, SConst y => x =? y
-  | SNone, SNone => true
-  | _, _ => false            (* SUnknown matches nothing *)
-  end.
-
 Fixpoint forallb2 {A B} (f : A -> B -> bool) (l1 : list A) (l2 : list B) : bool :=
   match l1, l2 with
   | [], [] => true
@@ -43,6 +35,15 @@ Proof.
   - constructor.
   - apply andb_true_iff in H as [H1 H2]. constructor; auto.
 Qed.
+
+Definition src_eqb (a b : src) : bool :=
+  match a, b with
+  | SSlot f i m, SSlot g j n => String.eqb f g && (i =? j) && (m =? n)
+  | SConst x, SConst y => x =? y
+  | SNone, SNone => true
+  | SFun f l, SFun g m => String.eqb f g && forallb2 Z.eqb l m
+  | _, _ => false            (* SUnknown matches nothing *)
+  end.
 
 Definition mem (s : string) (l : list string) : bool := existsb (String.eqb s) l.
 Lemma mem_In s l : mem s l = true -> In s l.
@@ -65,7 +66,7 @@ Definition gout_ok (want : option res) (g : gout) : bool :=
   end.
 
 Definition block_spec_ok (b : lblock) : bool :=
-  forallb2 (fun c g => known_pid0_unlisted (l_plat b) (l_meth b) (l_site b) c
+  forallb2 (fun c g => known_class (l_plat b) (l_meth b) (l_site b) c
                        || gout_ok (demanded (l_plat b) (l_meth b) (l_site b) c) g) (conds (l_plat b)) (l_outs b).
 
 (* --- two native calls / retries / wait *)
@@ -165,6 +166,7 @@ Definition resolve (p : plat) (d : dsrc) : option src :=
   | DCall fn i mul => Some (SSlot fn i mul)
   | DConst z => Some (SConst z)
   | DNone => Some SNone
+  | DFun fn idxs => Some (SFun fn idxs)
   end.
 
 Definition field_ok (p : plat) (f : string * src) (d : string * dsrc) : bool :=
@@ -211,6 +213,14 @@ Definition names_ok (n : names) : bool :=
   && forallb (fun a => mem a (nm_dir n)) (nm_all n).           (* everything in __all__ resolves *)
 Definition names_complete (l : list names) : bool :=
   forallb (fun p => existsb (fun n => plat_eqb (nm_plat n) p) l) all_plats.
+
+(* ------------------------------------------------------------------ system named tuples *)
+Definition same_set (a b : list string) : bool :=
+  forallb (fun x => mem x b) a && forallb (fun x => mem x a) b && Nat.eqb (List.length a) (List.length b).
+Definition sfrow_doc_ok (r : sfrow) : bool := same_set (sf_fields r) (doc_sys_fields (sf_plat r) (sf_fn r)).
+Definition sfrow_ok (r : sfrow) : bool := known_sys_fields (sf_plat r) (sf_fn r) || sfrow_doc_ok r.
+Definition sfrows_complete (rs : list sfrow) : bool :=
+  forallb (fun p => forallb (fun f => existsb (fun r => plat_eqb (sf_plat r) p && String.eqb (sf_fn r) f) rs) sys_functions) all_plats.
 
 (* ------------------------------------------------------------------ front end rows *)
 Fixpoint bytes_eqb (a b : bytes) : bool :=
